@@ -209,6 +209,10 @@ class C14(Prop):
                     op["sep"] = t.choice(SEPS)
                 if op["inm"] == "none" and not op["ims"]:
                     op["j"] = None
+                if op["inm"] in ("strong", "weak", "list") and not op["ims"] and t.draw(5) == 0:
+                    # an If-Modified-Since that is NOT the date of the held response travels next to the entity tag (a proxy's
+                    # own date, a broken client): with If-None-Match present it must be ignored (RFC 7232 3.3)
+                    op["ims_noise"] = t.choice(["junk", "", "Thu, 01 Jan 1970 00:00:00 GMT", "Fri, 31 Dec 9999 23:59:59 GMT", "Sun, 06 Nov 1994 08:49:37 GMT"])
             nreq[f] += 1
             ops.append(op)
         return {"app": app, "iface": iface, "nfiles": nfiles, "frac": frac, "sizes": sizes, "zerocopy": zerocopy, "ops": ops,
@@ -380,6 +384,9 @@ class C14(Prop):
             if op["ims"] and e.lm is not None:
                 headers.append(("if-modified-since", e.lm))
                 ims = True
+            elif op.get("ims_noise") is not None and form is not None:
+                headers.append(("if-modified-since", op["ims_noise"]))
+                ctx.probe("unrelated_if_modified_since_next_to_etag")
         if form != "star" and not headers:
             e = None
         req = AbstractRequest("GET", url, headers=headers, body=b"")
